@@ -1,4 +1,4 @@
-import Qfproto.Heap
+import QF.Core.Heap
 /-! Prototype C11: small-step interleavings of programs with own writes are race free and deterministic. -/
 namespace H
 
